@@ -218,4 +218,153 @@ theorem Core.bitrep {P : Prims} {V : St → List Val} (hR : Rec P V) {s s' : St}
           obtain ⟨a, b⟩ := fin s' (BitInv.iter hR e he _ s2 s' cs hb2 h)
           exact ⟨a, b, ghostIter_nil _ _ (cancelsL_bits P e) _ _⟩
 
+/-! ### the operators outside a bit-map definition -/
+
+theorem Core.operator {P : Prims} {V : St → List Val} (hR : Rec P V) {s s' : St} {cs : List Nat} (hc : Core V s cs)
+    (hst : Settled s) (id : Nat) (hok1 : okIdleOp id = true) (hnb : isBitmapOpId id = false)
+    (h : operatorDescriptor P id s = .ok s') (hok : markersOk (items V s') = true) :
+    Core V s' (cs ++ (if id / 1000 = 235 then [s.descs.length] else [])) ∧ Settled s' := by
+  have hnm : id ∉ bitmapOpIds := by simpa [isBitmapOpId] using hnb
+  simp only [okIdleOp, Bool.and_eq_true, bne_iff_ne, ne_eq, Bool.not_eq_true'] at hok1
+  obtain ⟨⟨⟨h236, h237⟩, _⟩, hh⟩ := hok1
+  have hinert : inert (DDesc.oper id) := ⟨hnm, h237⟩
+  have hdm := Nat.div_add_mod id 1000
+  -- register updates that the bit-map machinery does not see
+  have regs : ∀ (f : Regs → Regs), id / 1000 ≠ 235 →
+      (f s.regs).qa = s.regs.qa → (f s.regs).bitmapDef = s.regs.bitmapDef → (f s.regs).n031031 = s.regs.n031031 →
+      (f s.regs).bitmapped = s.regs.bitmapped → (f s.regs).bmIter = s.regs.bmIter →
+      (f s.regs).backBoundary = s.regs.backBoundary → (f s.regs).backRefs = s.regs.backRefs →
+      ((f s.regs).nbitsNewRefval = 0 ∧ (f s.regs).nbitsSkipped = 0 ∧ (f s.regs).dnpCount = 0) →
+      Core V (s.setRegs f) (cs ++ (if id / 1000 = 235 then [s.descs.length] else [])) ∧ Settled (s.setRegs f) := by
+    intro f hne a1 a2 a3 a4 a5 a6 a7 a8
+    rw [if_neg hne, List.append_nil]
+    refine ⟨hc.setRegs_other hR.setRegs f a1 a2 a3 a4 a5 a6 a7 a8, ?_⟩
+    unfold Settled
+    show (f s.regs).bitmapDef = _ ∨ (f s.regs).bitmapDef = _
+    rw [a2]; exact hst
+  -- one inert item recorded by a primitive
+  have item : ∀ (s0 s1 : St) (v : Val), Core V s0 cs → Settled s0 → Same s0 s1 (.oper id) → V s1 = V s0 ++ [v] →
+      Core V s1 cs ∧ Settled s1 := by
+    intro s0 s1 v c0 st0 hs hv
+    refine ⟨c0.inert_item st0 _ v hs hv hinert, ?_⟩
+    unfold Settled; rw [hs.2.2]; exact st0
+  unfold operatorDescriptor at h
+  simp only at h
+  by_cases c201 : id / 1000 = 201
+  · simp only [c201, if_true] at h
+    injection h with h; subst h
+    exact regs _ (by omega) rfl rfl rfl rfl rfl rfl rfl hc.quiet
+  simp only [c201, if_false] at h
+  by_cases c202 : id / 1000 = 202
+  · simp only [c202, if_true] at h
+    injection h with h; subst h
+    exact regs _ (by omega) rfl rfl rfl rfl rfl rfl rfl hc.quiet
+  simp only [c202, if_false] at h
+  by_cases c203 : id / 1000 = 203
+  · simp only [c203, if_true] at h
+    by_cases y255 : id % 1000 = 255
+    · simp only [y255, if_true] at h
+      injection h with h; subst h
+      exact regs _ (by omega) rfl rfl rfl rfl rfl rfl rfl ⟨rfl, hc.quiet.2.1, hc.quiet.2.2⟩
+    · simp only [y255, if_false] at h
+      by_cases y0 : id % 1000 = 0
+      · simp only [y0, if_true] at h
+        injection h with h; subst h
+        exact regs _ (by omega) rfl rfl rfl rfl rfl rfl rfl ⟨rfl, hc.quiet.2.1, hc.quiet.2.2⟩
+      · exfalso
+        simp [hidesMembers, c203, y0, y255] at hh
+  simp only [c203, if_false] at h
+  by_cases c204 : id / 1000 = 204
+  · simp only [c204, if_true] at h
+    by_cases y0 : id % 1000 = 0
+    · simp only [y0, if_true] at h
+      split at h
+      · cases h
+      · injection h with h; subst h
+        exact regs _ (by omega) rfl rfl rfl rfl rfl rfl rfl hc.quiet
+    · simp only [y0, if_false] at h
+      injection h with h; subst h
+      exact regs _ (by omega) rfl rfl rfl rfl rfl rfl rfl hc.quiet
+  simp only [c204, if_false] at h
+  by_cases c205 : id / 1000 = 205
+  · simp only [c205, if_true] at h
+    rw [if_neg (by omega), List.append_nil]
+    obtain ⟨v, hv⟩ := hR.string _ _ _ _ h
+    exact item s s' v hc hst (hR.quiet.string _ _ _ _ h) hv
+  simp only [c205, if_false] at h
+  by_cases c206 : id / 1000 = 206
+  · simp only [c206, if_true] at h
+    injection h with h; subst h
+    have y0 : id % 1000 = 0 := by
+      cases hy : id % 1000 with
+      | zero => rfl
+      | succ k => exfalso; simp [hidesMembers, c206, hy] at hh
+    exact regs _ (by omega) rfl rfl rfl rfl rfl rfl rfl ⟨hc.quiet.1, y0, hc.quiet.2.2⟩
+  simp only [c206, if_false] at h
+  by_cases c207 : id / 1000 = 207
+  · simp only [c207, if_true] at h
+    injection h with h; subst h
+    exact regs _ (by omega) rfl rfl rfl rfl rfl rfl rfl hc.quiet
+  simp only [c207, if_false] at h
+  by_cases c208 : id / 1000 = 208
+  · simp only [c208, if_true] at h
+    injection h with h; subst h
+    exact regs _ (by omega) rfl rfl rfl rfl rfl rfl rfl hc.quiet
+  simp only [c208, if_false] at h
+  by_cases c221 : id / 1000 = 221
+  · simp only [c221, if_true] at h
+    injection h with h; subst h
+    have y0 : id % 1000 = 0 := by
+      cases hy : id % 1000 with
+      | zero => rfl
+      | succ k => exfalso; simp [hidesMembers, c221, hy] at hh
+    exact regs _ (by omega) rfl rfl rfl rfl rfl rfl rfl ⟨hc.quiet.1, hc.quiet.2.1, y0⟩
+  simp only [c221, if_false] at h
+  by_cases cm : id / 1000 = 222 ∨ id / 1000 = 223 ∨ id / 1000 = 224 ∨ id / 1000 = 225 ∨ id / 1000 = 232
+  · simp only [cm, if_true] at h
+    rw [if_neg (by omega), List.append_nil]
+    by_cases y0 : id % 1000 = 0
+    · exfalso
+      apply hnm
+      have : id = 222000 ∨ id = 223000 ∨ id = 224000 ∨ id = 225000 ∨ id = 232000 := by omega
+      rcases this with rfl | rfl | rfl | rfl | rfl <;> decide
+    · simp only [y0, if_false, bind, Except.bind] at h
+      by_cases ha : s.regs.assocStack = []
+      · simp only [ha, ne_eq, not_true_eq_false, if_false, pure, Except.pure] at h
+        obtain ⟨a, b⟩ := hc.bitmapped hR hst id h hok
+        exact ⟨a, by unfold Settled; rw [b]; exact hst⟩
+      · simp only [ha, ne_eq, not_false_eq_true, if_true] at h
+        cases h1 : associatedField P id s with
+        | error err => simp [h1] at h
+        | ok s1 =>
+          simp only [h1] at h
+          obtain ⟨v, hv⟩ := hR.codeflag _ _ _ _ h1
+          have hs := hR.quiet.codeflag _ _ _ _ h1
+          have c1 : Core V s1 cs := hc.inert_item hst _ v hs hv trivial
+          have st1 : Settled s1 := by unfold Settled; rw [hs.2.2]; exact hst
+          obtain ⟨a, b⟩ := c1.bitmapped hR st1 id h hok
+          exact ⟨a, by unfold Settled; rw [b]; exact st1⟩
+  simp only [cm, if_false] at h
+  by_cases c235 : id / 1000 = 235
+  · simp only [c235, if_true] at h
+    injection h with h; subst h
+    rw [if_pos c235]
+    exact ⟨hc.cancel hR.setRegs hst, hst⟩
+  simp only [c235, if_false] at h
+  by_cases c236 : id / 1000 = 236
+  · simp only [c236, if_true] at h
+    rw [if_neg (by omega), List.append_nil]
+    obtain ⟨v, hv⟩ := hR.constant _ _ _ _ h
+    exact item s s' v hc hst (hR.quiet.constant _ _ _ _ h) hv
+  simp only [c236, if_false] at h
+  by_cases c237 : id / 1000 = 237
+  · simp only [c237, if_true] at h
+    rw [if_neg (by omega), List.append_nil]
+    have y0 : ¬ id % 1000 = 0 := by intro y0; apply h237; omega
+    simp only [y0, if_false] at h
+    obtain ⟨v, hv⟩ := hR.constant _ _ _ _ h
+    exact item s s' v hc hst (hR.quiet.constant _ _ _ _ h) hv
+  simp only [c237, if_false] at h
+  cases h
+
 end Bufr.C07
